@@ -39,6 +39,7 @@ type Prog struct {
 	axioms     []*Clause
 	ghostFunDecls []ghostFunDecl
 	guardedBy  map[string][]string // "Type.lockField" -> fields protected by that lock
+	lockInvs   map[string][]*LockInv // "Type.lockField" -> monitor invariant clauses
 }
 
 type ghostFunDecl struct {
@@ -103,6 +104,7 @@ func loadProg(repo string) (*Prog, error) {
 		sentinels: map[string]bool{}, ghostFuns: map[string]*ghostFun{}, heapVarTypes: map[string]types.Type{},
 		autoContracts: map[string]*Contract{}, boxedCache: map[*FuncInfo]map[types.Object]bool{},
 		guardedBy: map[string][]string{},
+		lockInvs:  map[string][]*LockInv{},
 	}
 	for _, pk := range pkgs {
 		if len(pk.Errors) > 0 {
@@ -449,4 +451,19 @@ func (p *Prog) fieldType(owner, field string) types.Type {
 		}
 	}
 	return nil
+}
+
+// namedType: the named type "T" / "mocks.T" of the loaded packages.
+func (p *Prog) namedType(owner string) types.Type {
+	name := owner
+	pk := p.pkgs[0]
+	if strings.HasPrefix(owner, "mocks.") {
+		name = strings.TrimPrefix(owner, "mocks.")
+		pk = p.pkgs[len(p.pkgs)-1]
+	}
+	tn, ok := pk.Types.Scope().Lookup(name).(*types.TypeName)
+	if !ok {
+		return nil
+	}
+	return tn.Type()
 }
